@@ -132,10 +132,11 @@ pub fn tag_value_pool() -> Vec<String> {
 }
 
 pub fn db_tag() -> BoxedStrategy<Vec<String>> {
-    db_tag_n(0)
+    db_tag_n(0, 0)
 }
 
-pub fn db_tag_n(n: usize) -> BoxedStrategy<Vec<String>> {
+pub fn db_tag_n(n: usize, names: usize) -> BoxedStrategy<Vec<String>> {
+    let name_pool: Vec<&'static str> = if names > 0 { vec!["e", "p", "t", "a", "d"].into_iter().take(names).collect() } else { vec!["e", "p", "t", "a", "d"] };
     let mut pool = tag_value_pool();
     if n > 0 {
         // "x", "x\0", "xy", ... : the colliding short values first
@@ -144,7 +145,7 @@ pub fn db_tag_n(n: usize) -> BoxedStrategy<Vec<String>> {
     let val = prop::sample::select(pool);
     prop_oneof![
         // single-letter tags with 1..3 strings after the name
-        12 => (prop::sample::select(vec!["e", "p", "t", "a", "d"]), prop::collection::vec(val.clone(), 1..3))
+        12 => (prop::sample::select(name_pool), prop::collection::vec(val.clone(), 1..3))
             .prop_map(|(n, mut v)| { v.insert(0, n.to_string()); v }),
         2 => (prop::sample::select(vec!["E", "1", "client", "dd", ""]), prop::collection::vec(val, 0..3))
             .prop_map(|(n, mut v)| { v.insert(0, n.to_string()); v }),
@@ -163,6 +164,8 @@ pub struct EvCfg {
     pub extreme_ids: bool,
     /// 0 = the full tag value pool; otherwise only the first n values (so that events share tags)
     pub tag_values: usize,
+    /// 0 = all tag names; otherwise only the first n of e, p, t, a, d
+    pub tag_names: usize,
 }
 
 impl Default for EvCfg {
@@ -173,6 +176,7 @@ impl Default for EvCfg {
             max_tags: 4,
             extreme_ids: true,
             tag_values: 0,
+            tag_names: 0,
         }
     }
 }
@@ -195,7 +199,7 @@ pub fn gen_event(cfg: EvCfg) -> BoxedStrategy<GenEvent> {
         0u8..cfg.authors,
         kind,
         time_pool(),
-        prop::collection::vec(db_tag_n(cfg.tag_values), 0..=cfg.max_tags),
+        prop::collection::vec(db_tag_n(cfg.tag_values, cfg.tag_names), 0..=cfg.max_tags),
         prop::option::weighted(0.92, prop_oneof![
             3 => prop::sample::select(d_pool()),
             // values that the 182-byte zero-padded index key cannot tell apart
@@ -237,6 +241,10 @@ pub enum DelTarget {
     A { kind: u16, author: u8, d: String },
     AMalformed(String),
     Other(Vec<String>),
+    /// the i-th earlier event written by the requester itself (an absent id if there is none)
+    EOwn(u16),
+    /// the i-th earlier event written by somebody else (skipped if there is none)
+    EForeign(u16),
 }
 
 #[derive(Clone, Debug, Serialize, Deserialize)]
@@ -340,6 +348,10 @@ pub fn op_strategy(w: OpWeights, cfg: EvCfg) -> BoxedStrategy<Op> {
                 12 => prop::collection::vec(del_target(), 1..5),
                 // long requests (a relay accepts what fits its message size): 60..100 targets
                 1 => prop::collection::vec(del_target(), 60..100),
+                // long requests whose first 60..100 targets are harmless for the requester (own events, absent ids)
+                // and whose last one names somebody else's stored event
+                2 => (prop::collection::vec(prop_oneof![3 => any::<u16>().prop_map(DelTarget::EOwn), 1 => any::<u8>().prop_map(DelTarget::EAbsent)], 60..100), any::<u16>())
+                    .prop_map(|(mut v, f)| { v.push(DelTarget::EForeign(f)); v }),
             ],
         )
             .prop_map(|(author, created_at, targets)| Op::DeleteReq { author, created_at, targets })
@@ -749,9 +761,18 @@ impl World {
                 }
                 DelTarget::AMalformed(s) => tags.push(vec!["a".to_string(), s.clone()]),
                 DelTarget::Other(v) => tags.push(v.clone()),
+                DelTarget::EOwn(i) | DelTarget::EForeign(i) => {
+                    let me = author(author_i);
+                    let own = matches!(t, DelTarget::EOwn(_));
+                    let cands: Vec<&MEvent> = self.events.iter().filter(|e| (e.pubkey == me) == own).collect();
+                    if !cands.is_empty() {
+                        tags.push(vec!["e".to_string(), cands[idx16(*i, cands.len())].id.clone()]);
+                    } else if own {
+                        tags.push(vec!["e".to_string(), self.absent_ids[(*i as usize) % self.absent_ids.len()].clone()]);
+                    }
+                }
             }
         }
-        let _ = author_i;
         tags
     }
 
@@ -794,7 +815,13 @@ impl World {
                 let mut tags = base.tags.clone();
                 let pos = tags.iter().position(|t| t.len() >= 2 && t[0] == "d")?;
                 let d = tags[pos][1].clone();
-                let nd = match how % 5 {
+                let nd = match how % 7 {
+                    // a ':' inside the identifier (addresses are written kind:pubkey:d)
+                    5 => format!("{d}:y"),
+                    6 => match d.find(':') {
+                        Some(p) => d[..p].to_string(),
+                        None => format!(":{d}"),
+                    },
                     0 => format!("{d}\0"),
                     1 => {
                         if d.ends_with('\0') {
